@@ -302,11 +302,11 @@ def run():
             behs = [json.load(open(replay_file))["replay"]["expected"]]
         else:
             behs, seen = [], set()
-            gens = [("Transaction_Gen1.cfg", None, None)]
+            gens = [("Transaction_Gen1.cfg", None, None), ("Transaction_GenN.cfg", None, None)]
             if thorough:
                 gens += [("Transaction_Gen2.cfg", None, None)] + [("Transaction_GenS%d.cfg" % L, 600, L) for L in (3, 4, 6)]
             else:
-                gens += [("Transaction_GenS%d.cfg" % L, 45, L) for L in (2, 3, 4)]
+                gens += [("Transaction_GenS%d.cfg" % L, 80, L) for L in (2, 3, 4)]
 
             def gen(g):
                 cfg, num, L = g
@@ -447,7 +447,7 @@ def run():
             chk.add_tlc(rn, "negative control: as-is handler violates " + inv, count_states=False)
         pool.shutdown()
         chk.cov["rule"] = ("behaviours = complete runs of spec/Transaction printed by TLC: exhaustive for requests of length <=1 over 26 operations x 10 "
-                           "condition shapes x 2 DSNs%s, TLC -simulate samples with a successful prefix and an arbitrary last operation for longer ones; "
+                           "condition shapes (and a small set on a DSN whose file cannot be opened)%s, TLC -simulate samples with a successful prefix and an arbitrary last operation for longer ones; "
                            "each is one real @transaction request on a fresh SQLite file; distinct_nontrivial = distinct (request, DSN) pairs that reached BEGIN; "
                            "traces = per-request hook event sequences accepted by Transaction_Trace") % (" and length <=2 (pruned after the first failure)" if thorough else "")
         chk.cov["exhaustive"] = False
